@@ -37,6 +37,25 @@ XmcdKinds == [ fsr_s0  |-> [iface |-> 0, btype |-> 0, size |-> 8],     \* FlexSP
                fsr_f   |-> [iface |-> 0, btype |-> 1, size |-> 516] ]  \* FlexSPI RAM full: 512 bytes of configuration + header (the biggest)
 XmcdKindNames == DOMAIN XmcdKinds
 XmcdMax == 516        \* no XMCD block is bigger than the biggest kind ("raw" blocks of the generator stay within 8..XmcdMax)
+\* The DCD (HAB4): header  D2 | length (big endian, header included) | version 4x  followed by commands  tag | length | parameter | ...
+\* Shape of a DCD = the sequence of its commands as [tag, len] records (the empty sequence = the smallest legal DCD, D2 00 04 4x).
+DcdHdr == 4
+DcdW(n) == [tag |-> 204, len |-> 4 + 8 * n]          \* CC Write Data, n address / value pairs
+DcdC(cnt) == [tag |-> 207, len |-> 12 + 4 * cnt]     \* CF Check Data: address, mask [, count]
+DcdN == [tag |-> 192, len |-> 4]                     \* C0 NOP
+DcdU(n) == [tag |-> 178, len |-> 4 + 4 * n]          \* B2 Unlock, n feature / UID words
+RECURSIVE DcdSum(_, _)
+DcdSum(cs, i) == IF i > Len(cs) THEN 0 ELSE cs[i].len + DcdSum(cs, i + 1)
+DcdLen(cs) == DcdHdr + DcdSum(cs, 1)
+DcdCmdOK(c) == /\ c.len >= 4 /\ c.len % 4 = 0
+               /\ CASE c.tag = 204 -> c.len >= 12 /\ (c.len - 4) % 8 = 0
+                    [] c.tag = 207 -> c.len \in {12, 16}
+                    [] c.tag = 192 -> c.len = 4
+                    [] c.tag = 178 -> TRUE
+                    [] OTHER -> FALSE
+\* what the ROM reads at the DCD pointer of the IVT: tag D2, a length that is the header + the commands one after the other, HAB major version 4
+DcdWellFormed(tag, len, ver, cs) == /\ tag = 210 /\ ver \in 64..79 /\ len = DcdLen(cs)
+                                    /\ \A i \in 1..Len(cs) : DcdCmdOK(cs[i])
 BlobHdr == 8          \* DEK blob: 8-byte header + key + 48 bytes of wrapping overhead
 BlobOvh == 48
 BlobSpan == 512       \* space reserved behind the CSF for the DEK blob by CST
